@@ -687,6 +687,8 @@ pub fn dec_scheme(s: &Sexp) -> Option<SchemeInfo> {
         return None;
     }
     let mut linfo = Vec::new();
+    static BUILDS: std::sync::atomic::AtomicUsize = std::sync::atomic::AtomicUsize::new(0);
+    let refuse = BUILDS.fetch_add(1, std::sync::atomic::Ordering::Relaxed) % 2 == 0;
     for x in &ll[1..] {
         let [t, k] = x.as_list()? else { return None };
         let ty = dec_ty(t)?;
@@ -698,6 +700,14 @@ pub fn dec_scheme(s: &Sexp) -> Option<SchemeInfo> {
             _ => return None,
         }
         linfo.push((ty, kind.to_string()));
+        // every other scheme is built with a refused second registration for the same type after each list
+        // (a history, not an input: the refusal must change nothing - C16 - and in particular nothing that a
+        // later serialization round trip of list state could see - C17, C14)
+        if refuse {
+            if b.add_list(ty, NeverList::default()).is_ok() {
+                return None;
+            }
+        }
     }
     b.set_nil_not_equal_behavior(ne.as_bool()?);
     Some(SchemeInfo { scheme: b.build(), lists: linfo })
